@@ -55,7 +55,7 @@ type node struct {
 }
 
 type opIn struct {
-	K string `json:"k"` // "add" | "ref" | "lit"
+	K string `json:"k"` // "add" | "ref" | "lit" | "tpl"
 	// ref: through which entry point the reference is rendered
 	//   namer   rawNamer.Name(gengotypes.Ref(path, name[args]))
 	//   id      snippet.ID("path.name[args]") rendered by gengo.NewSnippetWriter
@@ -72,6 +72,10 @@ type opIn struct {
 	// lit: render reflectTypes[Reflect] (a reflect.Type of a real Go type compiled into the harness)
 	// instead of a go/types value; Shape and Elems describe the same type
 	Reflect string `json:"reflect,omitempty"`
+	// tpl: snippet.T(format, args) — Parts is the format text (literal pieces and @placeholders), TArgs the
+	// argument set (entries the text does not mention included); see tpl.go
+	Parts []tplPart `json:"parts,omitempty"`
+	TArgs []tplArg  `json:"targs,omitempty"`
 }
 
 type reflectEntry struct {
@@ -210,8 +214,19 @@ func coqOp(o opIn) string {
 	switch o.K {
 	case "add":
 		return "OAdd " + cs(o.Path)
+	case "ref", "lit", "tpl":
+		return "ORender " + core.CoqList(opItems(o))
+	}
+	return "OAdd " + cs("")
+}
+
+// the items (literal text and references, in order) a rendered operation consists of
+func opItems(o opIn) []string {
+	switch o.K {
 	case "ref":
-		return "ORender [IRef " + coqRef(o.Path, o.Name, o.Args, o.TParams) + "]"
+		return []string{"IRef " + coqRef(o.Path, o.Name, o.Args, o.TParams)}
+	case "tpl":
+		return tplItems(o)
 	case "lit":
 		e := func(i int) string {
 			if i < len(o.Elems) {
@@ -230,9 +245,9 @@ func coqOp(o opIn) string {
 		default:
 			items = []string{e(0)}
 		}
-		return "ORender " + core.CoqList(items)
+		return items
 	}
-	return "OAdd " + cs("")
+	return nil
 }
 
 // every package path an operation mentions (for LocalNameOf queries and tags)
@@ -245,12 +260,33 @@ func opPaths(o opIn) []string {
 			walk(n.Args)
 		}
 	}
+	if o.K == "tpl" { // the arguments the text mentions, in textual order
+		for _, a := range tplMentioned(o) {
+			out = append(out, opPaths(a)...)
+		}
+		return out
+	}
 	if o.K != "lit" {
 		out = append(out, o.Path)
 	}
 	walk(o.Args)
 	walk(o.Elems)
 	return out
+}
+
+// the packages of the top-level references of an operation (type arguments and literal elements excluded)
+func headPaths(o opIn) []string {
+	switch o.K {
+	case "lit":
+		return nil
+	case "tpl":
+		var out []string
+		for _, a := range tplMentioned(o) {
+			out = append(out, headPaths(a)...)
+		}
+		return out
+	}
+	return []string{o.Path}
 }
 
 // ---------------------------------------------------------------- go/types values
@@ -497,6 +533,9 @@ func execute(in input) observed {
 					sw.Render(snippet.ID(litType(o)))
 				}
 				text = buf.String()
+			case "tpl":
+				sw.Render(tplSnippet(o))
+				text = buf.String()
 			}
 		})
 		oo := obsOp{Text: text, Panicked: panicked, Snap: snapshot(tr)}
@@ -582,9 +621,12 @@ func structured(in input) (ok bool, why string) {
 		}
 		return true
 	}
-	for _, o := range in.Ops {
+	var opOK func(o opIn) (bool, string)
+	opOK = func(o opIn) (bool, string) {
 		switch o.K {
 		case "add":
+		case "tpl":
+			return tplStructured(o, opOK)
 		case "ref":
 			if !okName(o.Name) {
 				return false, "odd_name"
@@ -628,6 +670,12 @@ func structured(in input) (ok bool, why string) {
 			}
 		default:
 			return false, "unknown_op"
+		}
+		return true, ""
+	}
+	for _, o := range in.Ops {
+		if ok, why := opOK(o); !ok {
+			return false, why
 		}
 	}
 	return true, ""
@@ -812,8 +860,10 @@ func symptom(in input, obs observed) string {
 // is p the package of a top-level reference or AddType (type arguments without a path are predeclared types)
 func topLevel(in input, p string) bool {
 	for _, o := range in.Ops {
-		if o.K != "lit" && o.Path == p {
-			return true
+		for _, h := range headPaths(o) {
+			if h == p {
+				return true
+			}
 		}
 	}
 	return false
@@ -851,8 +901,25 @@ func tagsOf(in input, obs observed, cmp bool, why string) []string {
 				}
 			}
 		}
+		if o.K == "tpl" {
+			if len(tplSuperfluous(o)) > 0 {
+				tags["tpl:superfluous_args"] = true
+			}
+			for _, a := range tplSuperfluous(o) {
+				if a.Op.K == "val" {
+					tags["tpl:superfluous_value_arg"] = true
+				}
+			}
+			if len(tplMentioned(o)) > 0 {
+				tags["tpl:mentions_args"] = true
+			}
+		}
+		emptyHead := false
+		for _, h := range headPaths(o) {
+			emptyHead = emptyHead || h == ""
+		}
 		for _, p := range opPaths(o) {
-			if p == "" && !(o.K != "lit" && o.Path == "") {
+			if p == "" && !emptyHead {
 				continue // a predeclared type among the arguments
 			}
 			seen[p]++
@@ -942,6 +1009,35 @@ func (prop) Shrink(raw json.RawMessage) []json.RawMessage {
 	}
 	// simpler operations
 	for i, o := range in.Ops {
+		if o.K == "tpl" {
+			for j, a := range o.TArgs { // an argument alone instead of the template; one entry less in the argument set
+				if a.Op.K == "ref" || a.Op.K == "lit" {
+					c := clone()
+					c.Ops[i] = a.Op
+					add(c)
+				}
+				used := false
+				for _, p := range o.Parts {
+					used = used || p.Arg == a.Name
+				}
+				if !used {
+					c := clone()
+					c.Ops[i].TArgs = append(c.Ops[i].TArgs[:j], c.Ops[i].TArgs[j+1:]...)
+					add(c)
+				}
+				if a.Op.K == "ref" && (len(a.Op.Args) > 0 || len(a.Op.TParams) > 0) {
+					c := clone()
+					c.Ops[i].TArgs[j].Op.Args, c.Ops[i].TArgs[j].Op.TParams = nil, nil
+					add(c)
+				}
+			}
+			for j := range o.Parts { // one piece of the text less
+				c := clone()
+				c.Ops[i].Parts = append(c.Ops[i].Parts[:j], c.Ops[i].Parts[j+1:]...)
+				add(c)
+			}
+			continue
+		}
 		if o.K == "lit" && len(o.Elems) > 0 {
 			c := clone()
 			e := o.Elems[0]
